@@ -129,10 +129,21 @@ class ExcAnalysis:
                             continue
                         cache.add(n.id)
             self._named_classes = cache
+        callers = [self.m.funcs[q] for q, es in self.prog.edges.items() for e in es
+                   if e.callee.qual == func.qual and q in self.m.funcs]
         for k in [func.cls] + list(func.cls.subclasses):
             g = self.m.resolve_method(k.name, func.name)
             if g is not None and g.qual == func.qual and k.name in cache:
-                return False        # a class that may be instantiated inherits the placeholder
+                # a class that may be instantiated inherits the placeholder: it is reached only through a method
+                # that this class uses as well (a sibling template that the class overrides never calls it)
+                for c in callers:
+                    if c.cls is None:
+                        return False
+                    gc = self.m.resolve_method(k.name, c.name)
+                    if gc is not None and gc.qual == c.qual:
+                        return False
+                if not callers:
+                    return False
         return True
 
     # ---------------------------------------------------------------- local sites
